@@ -556,6 +556,10 @@ def run(chk):
                 v = v.decode("latin1")
             # a short literal, or a format template (literal pieces of a format string), containing the separator
             return isinstance(v, str) and "." in v and len(v) <= 8
+        capped = [(x, c) for x, c, via in region if c.callee.get("name") in ("splitn", "rsplitn", "take", "nth", "skip")]
+        if capped:
+            return False, ("the membership decision looks at a capped number of name components (%s at %s): a name with *more* components than the "
+                           "set's own - a sibling set `prefix.audit` - passes as this set's" % (capped[0][1].callee.get("name"), capped[0][1].loc)), [], capped[0][1].loc
         seps = []
         for x, c in tests:
             for a in c.args:
@@ -725,4 +729,7 @@ def run(chk):
     common.config_wiring_rule(chk, P, "C11.R11:configuration-reaches-worker", "every builder option (roll_by, reuse_files, max_files, max_file_size_bytes, "
                               "separator) reaches the worker / the emitter unchanged under its own name",
                               ["emit_file::FileSetBuilder::spawn_inner"], 6)
+    # the worker reaches files and the filesystem through `&mut F` / `Box<F>` wrappers: they pass every method on
+    common.wrapper_family_rule(chk, P, "C11", "emit_file::File", 2)
+    common.wrapper_family_rule(chk, P, "C11", "emit_file::Filesystem", 1)
     return chk
